@@ -40,6 +40,13 @@ func genPair(t *rapid.T) pairCase {
 	}
 	a, ca := gen.Value(t)
 	b, cb := gen.Value(t)
+	// numeric text assembled from parts (long digit strings, leading zeros, bare fractions, exponents)
+	if fw.Pct(t, "numTextA", 7) {
+		a, ca = gen.NumericText(t)
+	}
+	if fw.Pct(t, "numTextB", 7) {
+		b, cb = gen.NumericText(t)
+	}
 	return pairCase{A: a, B: b, CA: ca, CB: cb}
 }
 
@@ -115,7 +122,7 @@ func TestC06CmpDirect(t *testing.T) {
 	fw.Run(t, fw.Spec[pairCase]{
 		ID: "C06", Name: "cmp_direct", Quick: 160000, Thorough: 4000000,
 		Gen: genPair, Check: checkPairDirect,
-		Rule: "pairs drawn from all value classes; value.Compare for = <> < <= > >= == against an independent ladder model written from the manual, plus the reference-free laws; non-trivial = operands of two different classes, distinct by (class pair, relation)",
+		Rule: "pairs drawn from all value classes (numeric strings from spelling pools and, 7% per operand, assembled from sign / leading zeros / up to 20 digits / fraction / exponent); value.Compare for = <> < <= > >= == against an independent ladder model written from the manual, plus the reference-free laws; non-trivial = operands of two different classes, distinct by (class pair, relation)",
 		Assumptions: []string{
 			"datetime spellings are limited to the layouts the reference parses; other digit-led strings of length >= 8 are discarded",
 			"number vs non-numeric text at the text rung is an open outcome (manual ambiguous): only the laws are checked there",
@@ -147,6 +154,12 @@ func genTriple(t *rapid.T) exprCase {
 			c, cc = val.Str(fmt.Sprintf(" %s ", a.S)), "str_int"
 		case "S":
 			c, cc = val.Str(strings.ToUpper(a.S)+" "), "str_plain"
+		}
+	}
+	if fw.Pct(t, "numTextTriple", 10) {
+		b, cb = gen.NumericText(t)
+		if fw.Pct(t, "numTextC", 50) {
+			c, cc = gen.NumericText(t)
 		}
 	}
 	if fw.Pct(t, "foldTriple", 4) {
@@ -461,6 +474,12 @@ func genArith(t *rapid.T) arithCase {
 		a, ca = gen.Numeric(t)
 		b, cb = gen.Numeric(t)
 	}
+	if fw.Pct(t, "numTextA", 12) {
+		a, ca = gen.NumericText(t)
+	}
+	if fw.Pct(t, "numTextB", 12) {
+		b, cb = gen.NumericText(t)
+	}
 	return arithCase{A: a, B: b, Op: fw.PickU(t, "op", []string{"+", "-", "*", "/", "%"}), CA: ca, CB: cb}
 }
 
@@ -638,7 +657,7 @@ func TestC06Arith(t *testing.T) {
 	fw.Run(t, fw.Spec[arithCase]{
 		ID: "C06", Name: "arith", Quick: 100000, Thorough: 3000000,
 		Gen: genArith, Check: checkArith,
-		Rule: "operand pairs (75% numeric-looking, 25% any class) x {+,-,*,/,%}: query.Calculate and SELECT a op b must agree; NULL iff an operand is not numeric; integer iff both integers (error on /0, %0); exact value via big.Int when it fits int64; float results equal IEEE; on integral operands exactly representable in float64 the float path must equal the integer path; % has the sign of a and |r|<|b|; non-trivial = numeric result, distinct by (path, op, classes, signs)",
+		Rule: "operand pairs (75% numeric-looking, 25% any class; 12% per operand numeric text assembled from parts) x {+,-,*,/,%}: query.Calculate and SELECT a op b must agree; NULL iff an operand is not numeric; integer iff both integers (error on /0, %0); exact value via big.Int when it fits int64; float results equal IEEE; on integral operands exactly representable in float64 the float path must equal the integer path; % has the sign of a and |r|<|b|; non-trivial = numeric result, distinct by (path, op, classes, signs)",
 		Assumptions: []string{"integer results that overflow int64 are outside the stated domain and are excluded (counted in class arith_int_overflow_excluded)",
 			"rounding of an inexact integer quotient is not documented: only the type is asserted"},
 	})
